@@ -167,12 +167,29 @@ def time_text(max_t):
     return (str(int(max_t)), 's')
 
 
-def check_property(p, tier, r=None, want_cex=False):
+def left_nested(p):
+    """The same property with every disjunction nested to the left (only the API can build it)."""
+    q = p
+    for pos in ('act', 'term', 'trig', 'beh'):
+        e = get_event(p, pos)
+        if e is not None and e[0] == 'evor':
+            q = with_event(q, pos, disj(alternatives(e), 'left'))
+    return q
+
+
+def check_property(p, tier, r=None, want_cex=False, route='parser'):
     from hpl.rewrite import canonical_form
 
     problems = []
     text = absyn.property_text(p, time=time_text(p[2][5]))
-    st, obj = impl.try_parse('prop', text)
+    if route == 'parser':
+        st, obj = impl.try_parse('prop', text)
+    else:
+        try:
+            st, obj = 'ok', absyn.build(left_nested(p))
+        except Exception as e:  # noqa: BLE001
+            st, obj = impl.outcome_class(e), e
+        text = text + ' [API, left-nested]'
     if st != 'ok':
         if r is not None:
             r.notes['rejected_by_parser:' + st] += 1
@@ -278,8 +295,13 @@ def run(unit):
         r.count('states')
         if len(alternatives(get_event(p, props.SPLIT_POSITION[p[2][1]] or 'beh'))) > 1:
             r.count('nontrivial')
-        for kind_, detail in check_property(p, tier, r):
-            r.violation(f'{kind_} [{p[1][1]}, {p[2][1]}]', {'property': p, 'text': absyn.property_text(p, time=time_text(p[2][5]))}, detail, size=len(absyn.property_text(p, time=time_text(p[2][5]))))
+        probs = check_property(p, tier, r)
+        widest = max(len(alternatives(get_event(p, pos))) for pos in ('act', 'term', 'trig', 'beh'))
+        if widest >= 3:
+            # the parser only builds right-nested disjunctions; the API also allows left-nested ones
+            probs += check_property(p, tier, r, route='api-left')
+        for kind_, detail in probs:
+            r.violation(f'{kind_} [{p[1][1]}, {p[2][1]}]', {'property': p, 'text': absyn.property_text(p, time=time_text(p[2][5])), 'api_left': 'left-nested' in detail}, detail, size=len(absyn.property_text(p, time=time_text(p[2][5]))))
         if len(r.samples) < 1:
             r.sample({'property': absyn.property_text(p, time=time_text(p[2][5]))})
     return r
@@ -290,7 +312,7 @@ def replay(w):
 
     p = _detuple(w['property'])
     # floats survive json; tuples restored
-    return [{'sig': k, 'detail': d} for k, d in check_property(p, 'thorough')]
+    return [{'sig': k, 'detail': d} for k, d in check_property(p, 'thorough', route='api-left' if w.get('api_left') else 'parser')]
 
 
 def describe(tier):
